@@ -1011,6 +1011,10 @@ func runWedge() {
 		nLanes = 1
 	}
 	var wg sync.WaitGroup
+	if r.ReplayCase() == "" {
+		wg.Add(1)
+		go func() { defer wg.Done(); restartLane(base) }()
+	}
 	for li := 0; li < nLanes; li++ {
 		wg.Add(1)
 		go func(li int) {
@@ -1046,4 +1050,56 @@ func runWedge() {
 		}(li)
 	}
 	wg.Wait()
+}
+
+// restartLane feeds one worker a well-formed command of every type the state
+// machine handles (the hostile lanes lose their workers too often to build up
+// a log worth replaying) and restarts it: the node must come back from its
+// log with the metadata it had.
+func restartLane(base string) {
+	w := spawn(base)
+	if w == nil {
+		r.Inconclusive("(c) restart lane: no worker")
+		return
+	}
+	l := &lane{id: 99, base: base, w: w, next: make(chan *worker), stop: make(chan struct{})}
+	close(l.next)
+	defer func() {
+		if l.w != nil {
+			l.w.kill()
+		}
+	}()
+	for round := 0; round < r.Pick(1, 4); round++ {
+		for _, t := range allTypes() {
+			if !handledType(int64(t)) {
+				continue
+			}
+			b := wellFormed(t, round)
+			switch t {
+			case TypeSetData:
+				d, err := l.w.data()
+				if err != nil {
+					continue
+				}
+				b = CmdSetData(EncodeData(d, nil))
+			case TypeSetMetaNode:
+				b = CmdSetMetaNode(l.w.httpAddr, l.w.raftAddr, 7)
+			}
+			id := fmt.Sprintf("exec/restart-lane/%d/%s", round, TypeName[t])
+			r.Begin(id, map[string]interface{}{"body_hex": hex.EncodeToString(b), "kind": "well-formed"})
+			st, _, err := l.w.post(b)
+			if err != nil || st != 200 || !l.w.ping() {
+				// a well-formed command that kills the node is reported by the
+				// hostile lanes (same bodies); this lane only needs a live node
+				r.Inconclusive(fmt.Sprintf("(c) restart lane: %s: status %d err %v", id, st, err))
+				return
+			}
+			r.Count("c_restart_lane_commands", 1)
+		}
+		l.refresh()
+		if !l.restartCheck(fmt.Sprintf("exec/restart-lane/%d", round)) || l.w == nil {
+			return
+		}
+		r.Count("c_restart_lane_restarts", 1)
+	}
 }
